@@ -482,6 +482,10 @@ class FileCache:
                     # Defaults to True if no validation directive is given
                     valid_entry = True
 
+            if valid_entry:
+                # Cache hit: touch the file to mark it as recently used.
+                self._get_from_cache(hashkey)
+
             if not valid_entry:
                 # If not a valid entry (either missing or invalid)
                 #
